@@ -75,6 +75,30 @@ def gen_tree(rng, cfg=None):
         files.append(p)
         tree.append({'p': p, 'k': 'file', 'c': rand_content(rng),
                      'mt': rng.choice([-3_000_000_000, -1_000_000_000, 0, 500_000_000, 2_000_000_000])})
+    # --- look-alike siblings: names that extend a directory's name as a STRING
+    # but are different path components (foo / foo-extra / foo.conf / foobar/x)
+    lookalikes = []
+    if cfg.get('lookalikes', True) and rng.random() < 0.35 and len(dirs) > 1:
+        d = rng.choice(dirs[1:])
+        for suffix in rng.sample(['-extra', '.conf', 'bar', '2', ' x'], rng.choice([1, 2])):
+            if rng.random() < 0.6:
+                p = d + suffix
+                if p not in taken:
+                    taken.add(p)
+                    files.append(p)
+                    tree.append({'p': p, 'k': 'file', 'c': rand_content(rng), 'mt': 0})
+                    lookalikes.append(p)
+            else:
+                nd = d + suffix
+                p = nd + '/inner'
+                if nd not in taken and p not in taken:
+                    taken.add(nd)
+                    taken.add(p)
+                    dirs.append(nd)
+                    tree.append({'p': nd, 'k': 'dir'})
+                    files.append(p)
+                    tree.append({'p': p, 'k': 'file', 'c': rand_content(rng), 'mt': 0})
+                    lookalikes.append(nd)
     # --- symlinks (never loops: targets are link-free subtrees, link outside target)
     links = []
     if cfg.get('symlinks', True):
@@ -280,7 +304,7 @@ def gen_tree(rng, cfg=None):
         emit(mp)
     info = {'dirs': dirs, 'files': files, 'view_files': [v for v, _ in view_files],
             'view_dirs': view_dirs, 'need': need, 'manifests': [m['p'] for m in out],
-            'ignored': ignored, 'top': top, 'dups': dup_info,
+            'ignored': ignored, 'top': top, 'dups': dup_info, 'lookalikes': lookalikes,
             'links': [(l['p'], l['k2']) for l in links]}
     return {'tree': tree, 'manifests': out, 'info': info}
 
